@@ -1,5 +1,21 @@
-import Ufo2ftModel.Spec.C05
-/-! Property C05 theorems. -/
+import Ufo2ftModel.Props.C05Order
+import Ufo2ftModel.Props.C05Quant
+import Ufo2ftModel.Props.C05Groups
+import Ufo2ftModel.Props.C05Ufo
+import Ufo2ftModel.Props.C05Merge
+import Ufo2ftModel.Props.C05Split
+import Ufo2ftModel.Props.C05Part
+import Ufo2ftModel.Props.C05Reg
+import Ufo2ftModel.Props.C05Together
+/-! Property C05 theorems.  The proofs live in the helper files:
+  * `C05Order`  — `KerningPair.__lt__` is a strict weak order, `sortPairs` sorts; first-match precedence ("exceptions still win")
+  * `C05Quant`  — `quantize` is the nearest multiple, halves up
+  * `C05Groups`, `C05Ufo` — `getKerningGroups` on valid groups; the first match of the sorted pairs carries the rounded UFO value
+  * `C05Merge`  — `mergeScripts`: fuel, disjointness, cover, multiset of pairs
+  * `C05Split`, `C05Part` — `_splitBaseAndMarkPairs`, `partitionByScript`
+  * `C05Together` — exception and excepted class cell end up in the same `splitKerning` bucket
+  * `C05Reg`    — `_registerLookups`
+  This file keeps the early small facts and states the headline corollary. -/
 namespace Ufo2ft.C05
 open Ufo2ft List
 
@@ -21,5 +37,21 @@ theorem pairLt_of_flags (a b : KPair) :
   · rintro ⟨h0, h1, h2⟩; simp [pairLt, h0, h1, h2]
 
 theorem sortPairs_perm (l : List KPair) : (sortPairs l).Perm l := List.mergeSort_perm _ _
+
+/-- Headline (single lookup, "UFO precedence glyph-glyph, glyph-group, group-glyph, group-group, rounded to the quantisation
+    step"): for well-formed kerning data and any two glyphs of the font, reading the `KerningPair`-sorted rule list first-match
+    gives the UFO kerning value of the pair rounded to a multiple of the step; when the step is positive the result is within
+    half a step of the UFO value. -/
+theorem C05_precedence (gs : List String) (groups : List (String × List String)) (kerning : List (String × String × Q)) (q : Q)
+    (hw : wfKern gs groups kerning = true) (hq : 0 < q) (g1 g2 : String) (hg1 : g1 ∈ gs) (hg2 : g2 ∈ gs) :
+    ((kernApplied gs groups kerning q g1 g2).map (·.value)).getD 0 = quantize (ufoKern groups kerning g1 g2) q ∧
+    (∃ k : Int, ((kernApplied gs groups kerning q g1 g2).map (·.value)).getD 0 = q * (k : Q)) ∧
+    absQ (((kernApplied gs groups kerning q g1 g2).map (·.value)).getD 0 - ufoKern groups kerning g1 g2) ≤ q / 2 := by
+  have h := C05_ufo_value gs groups kerning q hw g1 g2 hg1 hg2
+  rw [h]
+  exact ⟨rfl, quantize_multiple _ _, quantize_abs _ _ hq⟩
+
+example : ∃ k : Int, ((kernApplied exGs exGroups exKerning 5 "A" "V").map (·.value)).getD 0 = 5 * (k : Q) :=
+  (C05_precedence exGs exGroups exKerning 5 (by decide +kernel) (by decide) "A" "V" (by decide) (by decide)).2.1
 
 end Ufo2ft.C05
